@@ -11,18 +11,24 @@ Attrs == {<<-1, 0, 0, -1>>, <<0, 1, 0, -1>>, <<1, 2, 3, 0>>}
 MustCut(t) == {i \in 1..(Len(t) - 1) : t[i] = NL}
 Cuts(t) == {C \in SUBSET (1..(Len(t) - 1)) : MustCut(t) \subseteq C}
 EventChildren(t) ==
-  IF t = <<>> THEN {[text |-> <<>>, ev |-> <<>>, end |-> <<1, 0>>]} ELSE
+  IF t = <<>> THEN {[text |-> <<>>, ev |-> <<>>, evn |-> <<>>, end |-> <<1, 0>>]} ELSE
   UNION {
     LET cutSeq == SetToSortSeq(C \cup {Len(t)}, <)
         n == Len(cutSeq)
         pt == PosTable(t)
         start(k) == IF k = 1 THEN 1 ELSE cutSeq[k - 1] + 1
+        piece(k) == SubSeq(t, start(k), cutSeq[k])
     IN {[text |-> t,
          ev |-> [k \in 1..n |-> [gl |-> pt[start(k)][1], gc |-> pt[start(k)][2], si |-> f[k][1],
                                  ol |-> f[k][2], oc |-> f[k][3], ni |-> f[k][4]]],
+         evn |-> [k \in 1..n |-> [gl |-> pt[start(k)][1], gc |-> pt[start(k)][2], si |-> f[k][1],
+                                  ol |-> f[k][2], oc |-> f[k][3], ni |-> f[k][4], x |-> piece(k)]],
          end |-> EndPos(t)] : f \in [1..n -> Attrs]}
     : C \in Cuts(t)}
-RawChildren == {[text |-> t, ev |-> <<>>, end |-> EndPos(t)] : t \in Texts}
+RawLines(t) ==
+  LET ls == Lines(t)
+  IN [l \in 1..Len(ls) |-> [gl |-> l, gc |-> 0, si |-> -1, ol |-> 0, oc |-> 0, ni |-> -1, x |-> ls[l]]]
+RawChildren == {[text |-> t, ev |-> <<>>, evn |-> RawLines(t), end |-> EndPos(t)] : t \in Texts}
 Children == RawChildren \cup UNION {EventChildren(t) : t \in Texts}
 SlimChildren ==
   RawChildren \cup UNION {EventChildren(t) : t \in {<<cA>>, <<cA, NL>>, <<NL, cA>>}}
@@ -32,5 +38,5 @@ Init == \/ kids \in {<<a, b>> : a \in Children, b \in Children}
         \/ kids \in {<<a, b, c>> : a \in SlimChildren, b \in RawChildren, c \in SlimChildren}
 Next == UNCHANGED kids
 Spec == Init /\ [][Next]_kids
-DesignOK == ConcatOK(ForwardUnmapped, kids)
+DesignOK == ConcatOK(ForwardUnmapped, kids) /\ ConcatNormalOK(kids)
 =============================================================================
